@@ -75,6 +75,15 @@ def run(chk):
     repo = Repo(chk.repo)
     starting_vectors(chk, repo)
     rest(chk, repo)
+    # ---- R04.9: R04.1 pairs every starting function with the equation class of ITS assumption set.  That is the pairing the solver makes only if cf_build_solver
+    #      constructs that class for that assumption set (C01's dispatch rule, taken under C04: starting vectors of one set integrated with the equations of another
+    #      are no solutions of what is integrated, and the result drifts with the starting radius).
+    from . import c01
+    from .common import RuleAlias
+    mo = repo.by_path('TidalPy/RadialSolver/derivatives/odes.pyx')
+    al = RuleAlias(chk, 'R04.9', lambda rule, inst: rule == 'R01.3' and inst.startswith('cf_build_solver('))
+    c01.dispatch(al, repo, mo, {k_: (None, ts72.LAYOUT[(k_[0], k_[1])], None, c_) for k_, c_ in SM.CLASSES.items()})
+    chk.floor('R04.9', 8)
 
 
 def starting_vectors(chk, repo):
